@@ -13,9 +13,11 @@ uint8_t* ir_memmove(uint8_t* d, uint8_t* s, uint64_t n)
 uint8_t* ir_memset(uint8_t* d, uint8_t c, uint64_t n) { for (uint64_t i = 0; i < n; i++) d[i] = c; return d; }
 uint8_t* ir_alloc_exception(uint64_t n) { uint8_t* p = malloc(n); __CPROVER_assume(p != 0); return p; }
 void ir_throw_event(int kind) { __CPROVER_assert(kind == ir_throw_allowed, "exception thrown only where the contract expects it"); }
-uint8_t* _Znwm(uint64_t n) { uint8_t* p = malloc(n); __CPROVER_assume(p != 0); return p; }
-uint8_t* _Znam(uint64_t n) { uint8_t* p = malloc(n); __CPROVER_assume(p != 0); return p; }
-void _ZdlPv(uint8_t* p) { free(p); }
-void _ZdaPv(uint8_t* p) { free(p); }
-void _ZdlPvm(uint8_t* p, uint64_t n) { free(p); }
-void _ZdaPvm(uint8_t* p, uint64_t n) { free(p); }
+/* ghost allocation ledger: number of blocks obtained from operator new and not yet returned */
+uint64_t ir_live_allocs;
+uint8_t* _Znwm(uint64_t n) { uint8_t* p = malloc(n); __CPROVER_assume(p != 0); ir_live_allocs++; return p; }
+uint8_t* _Znam(uint64_t n) { uint8_t* p = malloc(n); __CPROVER_assume(p != 0); ir_live_allocs++; return p; }
+void _ZdlPv(uint8_t* p) { if (p) ir_live_allocs--; free(p); }
+void _ZdaPv(uint8_t* p) { if (p) ir_live_allocs--; free(p); }
+void _ZdlPvm(uint8_t* p, uint64_t n) { if (p) ir_live_allocs--; free(p); }
+void _ZdaPvm(uint8_t* p, uint64_t n) { if (p) ir_live_allocs--; free(p); }
